@@ -9,7 +9,8 @@
     * then with v := the least valence of the row with v >= b:  #attached H = v - b and the orders of
       all incident bonds add up to v.  If b is half-integral (an odd number of aromatic bonds, e.g.
       ring-fusion atoms) v - b is not an integer: pysmiles takes int(v - b); the predicate then
-      demands #H = floor(v - b) and the sum within half a unit of v;
+      demands #H = floor(v - b) and the sum within half a unit of v — but ONLY for atoms flagged aromatic;
+      a half-integral bond sum on a non-aromatic atom (a left-over 1.5 order) violates "orders add up";
     * every H has degree exactly 1 (order 1);
     * a hydrogen that was ADDED by the completion (it does not come from a fragment: no `mapping`
       attribute) carries its anchor's fragid, fragname and weight; hydrogens written explicitly
@@ -52,6 +53,9 @@ Definition check_atom (o : obs_graph) (k : Z) (a : attrs) : nat :=
       let hs := filter (fun p => o_isH o (fst p)) adj in
       let b2 := sum_half heavy in
       if 2 * max_list val <? b2 then 0%nat else
+      (* a half-integral bond sum is the aromatic convention (1.5 per aromatic bond): it is only accepted on an
+         atom that is flagged aromatic; on any other atom the orders cannot add up to a valence *)
+      if negb (Z.even b2) && negb (truthy (getd (S "aromatic") a (VBool false))) then 2%nat else
       match least_ge val b2 with
       | None => 0%nat
       | Some v =>
@@ -166,11 +170,15 @@ Definition extra_ok (x : extra) : bool :=
     step raised or the case is outside the property's domain, then nothing is judged);
     c_skip: the input never reached rebuild_h_atoms. *)
 Record case := { c_skip : bool; c_before : graph; c_car : option graph;
-                 c_after : option obs_graph; c_final : option obs_graph; c_extra : list extra }.
+                 c_after : option obs_graph; c_final : option obs_graph; c_extra : list extra;
+                 c_nocorr : bool }.
+(** c_nocorr: the implementation called rebuild_h_atoms in a way the model does not cover (arguments other
+    than the defaults, or without calling correct_aromatic_rings): the model is not compared on this case,
+    but the PROPERTY is still judged on the molecule that was returned. *)
 
 Definition corr_ok (c : case) : bool :=
   forallb extra_ok (c_extra c) &&
-  (if c_skip c then true else
+  (if c_skip c || c_nocorr c then true else
    match rebuild_h_atoms_default (c_before c) (c_car c), c_after c with
    | Ok g, Some o => obs_eqb (observe g) o
    | Err _, None => true
